@@ -503,7 +503,87 @@ def rule_R23(text, fired):
         _count(fired, 'R23')
 
 
+# ---- R24: write!(W, ...) is its expansion ------------------------------------------------------------
+R24_RX = re.compile(r'\bwrite!\(\s*([A-Za-z_][A-Za-z0-9_]*)\s*,')
+
+
+def rule_R24(text, fired):
+    """`write!(W, LIT, args..)` -> `W.write_fmt(format_args!(LIT, args..))` (the macro's definition); R6b then names the rendering."""
+    while True:
+        m = R24_RX.search(text)
+        if not m:
+            return text
+        i = m.end()
+        depth = 1
+        in_str = False
+        while depth > 0:
+            c = text[i]
+            if in_str:
+                if c == '\\':
+                    i += 1
+                elif c == '"':
+                    in_str = False
+            elif c == '"':
+                in_str = True
+            elif c in '([{':
+                depth += 1
+            elif c in ')]}':
+                depth -= 1
+            i += 1
+        args = text[m.end():i - 1].strip()
+        text = text[:m.start()] + f'{m.group(1)}.write_fmt(format_args!({args}))' + text[i:]
+        _count(fired, 'R24')
+
+
+# ---- R25: enumerate().try_for_each over a slice --------------------------------------------------------
+R25_RX = re.compile(r'([A-Za-z_][\w\.]*?)\s*\.iter\(\)\s*\.enumerate\(\)\s*\.try_for_each\(\|\((\w+),\s*(\w+)\)\|\s*->\s*Result\s*\{')
+
+
+def rule_R25(text, fired):
+    """`E.iter().enumerate().try_for_each(|(i, x)| -> Result { BODY })` -> `{ let mut i: usize = 0; while i < E.len() { let x = &E[i];
+    let step: Result = { BODY }; step?; i += 1; } Ok(()) }`.  Trusted: try_for_each over an enumerated slice iterator runs the closure on
+    the elements left to right with their indices and returns the first Err, or Ok(()) at the end.  Only applied where the call is the
+    tail expression of a function returning that Result, so a `?` inside BODY leaves the function with the same value either way."""
+    while True:
+        m = R25_RX.search(text)
+        if not m:
+            return text
+        i = m.end()
+        depth = 1
+        in_str = False
+        while depth > 0:
+            c = text[i]
+            if in_str:
+                if c == '\\':
+                    i += 1
+                elif c == '"':
+                    in_str = False
+            elif c == '"':
+                in_str = True
+            elif c in '([{':
+                depth += 1
+            elif c in ')]}':
+                depth -= 1
+            i += 1
+        body = text[m.end():i - 1]
+        j = i
+        while text[j] in ' \n\t':
+            j += 1
+        if text[j] != ')':
+            raise Refuse('R25: closure is not the only argument of try_for_each')
+        rest = text[j + 1:].strip()
+        if rest not in ('}', ''):
+            raise Refuse('R25: try_for_each is not the tail expression of the function')
+        e, idx, x = m.group(1), m.group(2), m.group(3)
+        rep = (f'{{ let mut {idx}: usize = 0;\n        while {idx} < {e}.len() {{\n            let {x} = &{e}[{idx}];\n'
+               f'            let step: Result = {{{body}}};\n            step?;\n            {idx} += 1;\n        }}\n        Ok(()) }}')
+        text = text[:m.start()] + rep + text[j + 1:]
+        _count(fired, 'R25')
+
+
 RULES = {
+    'R25': rule_R25,
+    'R24': rule_R24,
     'R23': rule_R23,
     'R22': rule_R22,
     'R21': rule_R21,
@@ -522,7 +602,7 @@ RULES = {
     'R9': rule_R9,
     'R13': rule_R13,
 }
-ORDER = ['R23', 'R22', 'R21', 'R19', 'R20', 'R10', 'R2', 'R9', 'R6b', 'R6', 'R7', 'R13', 'R14', 'R15', 'R16', 'R18', 'R5']
+ORDER = ['R25', 'R24', 'R23', 'R22', 'R21', 'R19', 'R20', 'R10', 'R2', 'R9', 'R6b', 'R6', 'R7', 'R13', 'R14', 'R15', 'R16', 'R18', 'R5']
 
 
 def apply_rules(text, active, fired, extra_subs=()):
